@@ -9,6 +9,64 @@ let binop_of = function
   | "in" -> M.OIn | "or" -> M.OOr | "and" -> M.OAnd | "index" -> M.OIndex
   | s -> raise (Parse_error ("bad binop " ^ s))
 
+let rec nat_of_int (n : int) : M.nat = if n <= 0 then M.O else M.S (nat_of_int (n - 1))
+let big_fuel = lazy (nat_of_int 300000)
+
+let expect t s = let x = next t in if x <> s then raise (Parse_error ("expected " ^ s ^ " got " ^ x))
+
+(* P( name C( .. ) ... ) *)
+let parse_progs t =
+  expect t "P(";
+  let rec go acc = match peek t with
+    | Some ")" -> ignore (next t); List.rev acc
+    | _ -> let n = bytes_of_hex (next t) in
+           (match parse_value t with
+            | M.VCode c -> go ((n, c) :: acc)
+            | _ -> raise (Parse_error "prog code")) in
+  go []
+
+(* B( name value ... ) : later bindings replace earlier ones *)
+let parse_binds t =
+  expect t "B(";
+  let rec go m = match peek t with
+    | Some ")" -> ignore (next t); m
+    | _ -> let n = bytes_of_hex (next t) in
+           let v = parse_value t in go (M.map_insert m n v) in
+  go []
+
+(* F( name kind [value] ... ) *)
+let parse_ufuncs t =
+  expect t "F(";
+  let rec go acc = match peek t with
+    | Some ")" -> ignore (next t); List.rev acc
+    | _ -> let n = bytes_of_hex (next t) in
+           let u = (match next t with
+             | "const" -> M.UFConst (parse_value t)
+             | "arg0" -> M.UFArg0
+             | "this" -> M.UFThis
+             | "args" -> M.UFArgs
+             | s -> raise (Parse_error ("ufun " ^ s))) in
+           go ((n, u) :: acc) in
+  go []
+
+let print_log (lg : ((M.z list * M.value) * M.value list) list) : string =
+  let b = Buffer.create 64 in
+  Buffer.add_string b " LOG(";
+  List.iter (fun ((n, this), args) ->
+    Buffer.add_string b " "; Buffer.add_string b (hex_of_bytes n);
+    Buffer.add_string b " "; print_value b this;
+    Buffer.add_string b " "; print_value b (M.VList args)) (List.rev lg);
+  Buffer.add_string b " )";
+  Buffer.contents b
+
+let print_res (r : (M.value * 'a) M.res) (plog : 'a -> string) : string =
+  match r with
+  | M.ROk (v, lg) -> "OK " ^ string_of_value v ^ plog lg
+  | M.RErr e -> "ERR " ^ tok_of_err e
+  | M.RPanic -> "PANIC"
+  | M.RFuel -> "MODEL_FUEL"
+  | M.RUnmod -> "UNMOD"
+
 let run_case (line : string) : string =
   let t = mk_toks line in
   match next t with
@@ -38,6 +96,36 @@ let run_case (line : string) : string =
       let a = parse_value t in
       if M.is_truthy a then "b1" else "b0"
   | "echo" -> string_of_value (parse_value t)
+  | "run" ->
+      (* run <entry> P( progs ) B( bindings ) F( ufuncs ) *)
+      let entry = bytes_of_hex (next t) in
+      let progs = parse_progs t in
+      let binds = parse_binds t in
+      let ufs = parse_ufuncs t in
+      let env = { M.e_bound = true; e_params = binds; e_progs = progs; e_ufuncs = ufs;
+                  e_runtime = true; e_now = M.Z0 } in
+      print_res (M.exec (Lazy.force big_fuel) env entry) print_log
+  | "func" ->
+      (* func <name> <this> L( args ) *)
+      let name = bytes_of_hex (next t) in
+      let this = parse_value t in
+      let args = (match parse_value t with M.VList l -> l | _ -> raise (Parse_error "args")) in
+      (match M.call_default M.Z0 name this args with
+       | None -> "NOFUNC"
+       | Some (M.ROk v) -> string_of_value v
+       | Some M.RUnmod -> "UNMOD"
+       | Some M.RPanic -> "PANIC"
+       | Some (M.RErr e) -> "ERR " ^ tok_of_err e
+       | Some M.RFuel -> "MODEL_FUEL")
+  | "ctor" ->
+      let name = bytes_of_hex (next t) in
+      let args = (match parse_value t with M.VList l -> l | _ -> raise (Parse_error "args")) in
+      (match M.construct_type M.Z0 name args with
+       | M.ROk v -> string_of_value v
+       | M.RUnmod -> "UNMOD"
+       | M.RPanic -> "PANIC"
+       | M.RErr e -> "ERR " ^ tok_of_err e
+       | M.RFuel -> "MODEL_FUEL")
   | "spec_arith" ->
       (* what C03 requires of <op> a b on numeric operands: a value, MUSTERR, or NA *)
       let o = (match next t with
